@@ -12,7 +12,8 @@ def run_shard(args):
     kind = args[0]
     if kind == 'corpus':
         _, paths, d, start = args
-        texts = [(t, 'corpus cost=%d' % c) for t, c, _ in R.corpus_texts(paths, d, start)]
+        # layouts: the BOM and leading comment/blank lines matter to a lexer started at a non-zero offset
+        texts = [(t, 'corpus cost=%d%s' % (c, '' if ln == 'plain' else ' ' + ln)) for t, c, ln in R.corpus_texts(paths, d, start, ('plain', 'bom', 'comments-crlf-tab') if start == 'file' else ('plain', 'bom'))]
     elif kind == 'chars':
         _, n, shard = args
         texts = [(t, 'chars len=%d' % l) for t, l in X.shard_strings(R.CHAR_SIGMA, n, shard)]
@@ -50,7 +51,7 @@ def run(tier, seed):
         total.merge(r)
     total.states = len(allh)
     total.nontrivial = len(allh)
-    rule = ('every G_ref sentence with at most %d non-default alternatives (accepted by the parser or not) and every string of length<=%d over %r, through parse / parse_starts_at / '
+    rule = ('every G_ref sentence with at most %d non-default alternatives (accepted by the parser or not; plain, BOM-prefixed and comment/CRLF/tab layouts) and every string of length<=%d over %r, through parse / parse_starts_at / '
             'parse_tokens / lex / lex_starts_at, Parse::{parse, parse_starts_at, parse_without_path} for Mod*, Suite, Stmt, Expr, Identifier, Constant and all 55 generated node types, '
             'the deprecated helpers, in three modes at offsets {0, 1, 7, 400, 2^31, 2^32-2-len}; Mode::from_str on all strings of <=6 letters; states = distinct texts, '
             'transitions = relations checked' % (d, n, ''.join(R.CHAR_SIGMA)))
